@@ -386,7 +386,7 @@ struct HistRunner
          {
             // two floating-point runs may legitimately disagree on ill-posed LPs only
             bool ill = z3HasZeroMarginCertificate(md) != 0 || z3HasNonWorseningRay(md) != 0;
-            if(!ill || md.m() > 14 || md.n() > 14)
+            if(!ill)
             {
                v.fail(where(what) + std::string("modified object returns ") + statusName(st) + " but a fresh object given the same LP returns " + statusName(fs));
                return;
@@ -990,6 +990,7 @@ struct HistRunner
          modifies = false;
          e.count("op.skipped");
       }
+      if(getenv("VF_DUMPLP")) fprintf(stderr, "---- model after step %d\ncase X\n%splanted 0 0\nend\n", step, lpText(md).c_str());
       if(getenv("VF_TRACE"))
       {
          fprintf(stderr, "[%d] %s -> status %s hasBasis %d hasSol %d dims %dx%d", step, op.c_str(), statusName(sp.status()), (int) sp.hasBasis(), (int) sp.hasSol(), sp.numRows(), sp.numCols());
